@@ -589,7 +589,43 @@ func (p *Prog) Facts(fn *ssa.Function) map[*ssa.BasicBlock]FactSet {
 		}
 	}
 	p.facts[fn] = in
+	if p.edgeOut == nil {
+		p.edgeOut = map[*ssa.Function]func(*ssa.BasicBlock, int) FactSet{}
+	}
+	p.edgeOut[fn] = out
 	return in
+}
+
+// EdgeFacts returns the facts that hold when control flows along the edge pred -> pred.Succs[succIdx].
+func (p *Prog) EdgeFacts(pred *ssa.BasicBlock, succIdx int) FactSet {
+	fn := pred.Parent()
+	p.Facts(fn)
+	if f := p.edgeOut[fn]; f != nil {
+		return f(pred, succIdx)
+	}
+	return FactSet{}
+}
+
+// PhiEdgeFacts returns, for each incoming edge of phi, the facts that hold on that edge.
+func (p *Prog) PhiEdgeFacts(phi *ssa.Phi) []FactSet {
+	b := phi.Block()
+	out := make([]FactSet, len(phi.Edges))
+	used := map[*ssa.BasicBlock]int{}
+	for i, pred := range b.Preds {
+		// the i-th predecessor may reach b through several successor slots; take them in order
+		n := used[pred]
+		k := 0
+		for si, s := range pred.Succs {
+			if s == b {
+				if k == n {
+					out[i] = p.EdgeFacts(pred, si)
+				}
+				k++
+			}
+		}
+		used[pred]++
+	}
+	return out
 }
 
 func defBlock(v ssa.Value) *ssa.BasicBlock {
@@ -691,6 +727,11 @@ func BackwardSlice(v ssa.Value, o SliceOpts) map[ssa.Value]bool {
 			return
 		}
 		switch x := v.(type) {
+		case *ssa.FreeVar:
+			if b := Binding(x); b != nil {
+				visit(b)
+			}
+			return
 		case *ssa.Call:
 			if o.ThroughCall != nil && o.ThroughCall(x) {
 				for _, a := range x.Call.Args {
